@@ -2,6 +2,31 @@
 import json, os
 V = os.path.dirname(os.path.dirname(os.path.abspath(__file__)))
 CLAIMED = {
+ "C01": dict(
+   text="PARTIAL proof + validation. Proved: the closed form for the stars of the turning-off bin (IMF integrated below the turn-off mass) solves exactly the ODE the code "
+        "integrates (is_derive, from the verified moment integral and sweep speed), and the field's flux at such a state is that expression; the ties of IMF (C11), bins (C13), "
+        "lifetimes (C14), IFMR (C09) and field (C02) compose. Validated on every run, NOT proved: full constructions over random IMFs / layouts / metallicities / all IFMR methods / "
+        "retention fractions / N0 / ages against the closed-form star counts and per-bin remnant numbers and masses (IMF above the turn-off pushed through the IFMR on a 40000-point "
+        "progenitor grid), at the default tolerance and with the tolerance tightened from outside.",
+   design="8/C01", technique="Coq/Coquelicot proof that the closed form solves the modelled ODE + closed-form differential validation of full runs",
+   note="Trusted: Coq kernel; Reals/Coquelicot axioms; NOT proved: the pre-image integral per remnant bin, uniqueness of the ODE solution, the Nmin cut-off residue (allowed for "
+        "explicitly: 0.1 object per turned-off star bin) and dopri5's convergence; harness + fullrun.py."),
+ "C05": dict(
+   text="Proof: the mean mass P2/P1 of a star bin truncated at the turn-off mass lies strictly between the lower edge and min(upper edge, turn-off mass) for every slope; the remnant "
+        "flux lies in the cone of its bin (lower*dNr <= dMr <= upper*dNr) and goes to the predicted class only; escape is radial for remnants (C03), kicks and ejection preserve "
+        "bin means (C15, C07, C08). Validated on every run (the solver is not modelled; cone invariance is not a property of DOPRI5's negative weight): full constructions with "
+        "escape on both sides of core collapse, kicks, partial retention and BH targets - every populated bin's mean against its edges, NS bins at exactly the NS mass, empty "
+        "remnant bins at their centre.",
+   design="8/C05", technique="Coq proofs of the cone/mean invariants at field level + validation of per-row means on full runs",
+   note="Trusted: Coq kernel; Reals axioms; per-row statements hold for the exact solution / Euler steps, measured (not proved) for dopri5; harness + fullrun.py."),
+ "C04": dict(
+   text="PARTIAL. Proved: the filtered summary views are consistent for ANY last row (M, N, m, types have length nms+nmr; exactly the bins with N > 10 Nmin, NaN counted as absent; "
+        "star bins first then remnants in stored order; m = M/N), tied to the implementation by running the real property getters on injected multi-row arrays (exact). "
+        "Explored, not proved (the Fortran solver, its evaluation points and first trial step are not modelled): random valid configurations over the documented domain for both model "
+        "classes in parallel, every public array inspected for finiteness / sign, exceptions classified by call site against the listed findings.",
+   design="8/C04", technique="Coq proof of view consistency + exact getter correspondence + classified random exploration of full constructions",
+   note="Level is proof for the views only; the pipeline clauses (no exception, finite, non-negative) are explored on 48 (quick) / 600 (thorough) configurations per run."),
+
  "C19": dict(
    text="Proof: up to the final age, whenever the turning-off bin has the slope of the IMF's last segment, the simplified nested derivative IS the full stellar-evolution "
         "derivative with full BH retention and the same empty-bin threshold (equality of the two model functions for every state), so the two integrations coincide step "
@@ -140,7 +165,7 @@ CLAIMED = {
         "generated layouts (int / list / dict forms, both spacings, real and stub IFMR bounds, edges on IFMR bounds).",
    design="8/C13", technique="Coq proofs by list induction (real instance) + bit-exact float correspondence + property oracle on constructed MassBins",
    note="Trusted: Coq kernel; Reals axioms listed in evidence; numpy.geomspace modelled mathematically (1e-12), linspace operation-by-operation; harness. "
-        "Dict-form remnant bins are exercised by the oracle only (not modelled). Open findings: edge at the NS mass, edge at the WD maximum."),
+        "Dict-form remnant bins are exercised by the oracle only (not modelled). Open finding: edge at the WD maximum."),
 
  "C12": dict(
    text="Proof: Coq theorems (Coquelicot) that the helper's closed form IS the Riemann integral of m^(a+k-1) on [m1,m2] in both branches, is positive, additive, "
